@@ -155,12 +155,44 @@ def straightened(pkg, cls, meth, keep=()):
     return cache[key]
 
 
+def _join_dict_stores(fn):
+    """`T = {}` directly followed by `T["k1"] = v1; T["k2"] = v2; ..` (constant keys, no value reads T) written as the display
+    `T = {"k1": v1, "k2": v2}` it builds, in place"""
+    def rec(node):
+        for fld in ("body", "orelse", "finalbody"):
+            b = getattr(node, fld, None)
+            if isinstance(b, list) and b and isinstance(b[0], ast.stmt):
+                out = []
+                cur = None           # (name, display being extended)
+                for st in b:
+                    if not isinstance(st, (ast.FunctionDef, ast.AsyncFunctionDef, ast.ClassDef)):
+                        rec(st)
+                    if cur is not None and isinstance(st, ast.Assign) and len(st.targets) == 1 and isinstance(st.targets[0], ast.Subscript) \
+                            and isinstance(st.targets[0].value, ast.Name) and st.targets[0].value.id == cur[0] and isinstance(st.targets[0].slice, ast.Constant) \
+                            and not any(isinstance(x, ast.Name) and x.id == cur[0] for x in ast.walk(st.value)) \
+                            and not any(isinstance(k, ast.Constant) and k.value == st.targets[0].slice.value for k in cur[1].keys):
+                        cur[1].keys.append(st.targets[0].slice)
+                        cur[1].values.append(st.value)
+                        continue
+                    cur = None
+                    if isinstance(st, ast.Assign) and len(st.targets) == 1 and isinstance(st.targets[0], ast.Name) and \
+                            ((isinstance(st.value, ast.Dict) and not st.value.keys) or (isinstance(st.value, ast.Call) and ast.unparse(st.value) == "dict()")):
+                        st.value = ast.copy_location(ast.Dict(keys=[], values=[]), st.value)
+                        cur = (st.targets[0].id, st.value)
+                    out.append(st)
+                setattr(node, fld, out)
+        for hd in getattr(node, "handlers", []) or []:
+            rec(hd)
+    rec(fn)
+    return fn
+
+
 def _plain(pkg, cls, meth):
     """a private copy of method `cls.meth` as written, tuple assignments split (see _untuple)"""
     import copy
     cache = pkg.__dict__.setdefault("_c20_plain", {})
     if (cls, meth) not in cache:
-        cache[(cls, meth)] = _untuple(copy.deepcopy(pkg.method(cls, meth)))
+        cache[(cls, meth)] = _join_dict_stores(_untuple(copy.deepcopy(pkg.method(cls, meth))))
     return cache[(cls, meth)]
 
 
@@ -250,7 +282,7 @@ def _render_handle(pkg):
     if "fn" not in cache:
         import copy
         from ..normalize import expand_kwargs_dicts, _ExprInliner
-        fn = _untuple(copy.deepcopy(pkg.expanded("RenderCommand", "handle", keep=("option", "confirm", "call", "line", "argument"))))
+        fn = _join_dict_stores(_untuple(copy.deepcopy(pkg.expanded("RenderCommand", "handle", keep=("option", "confirm", "call", "line", "argument")))))
 
         def helper(call):
             f = call.func
@@ -274,7 +306,7 @@ def _init_handle(pkg):
     if "fn" not in cache:
         import copy
         from ..normalize import expand_kwargs_dicts
-        fn = _untuple(copy.deepcopy(pkg.expanded("InitCommand", "handle", keep=("option", "validate"))))
+        fn = _join_dict_stores(_untuple(copy.deepcopy(pkg.expanded("InitCommand", "handle", keep=("option", "validate")))))
         try:
             expand_kwargs_dicts(fn)           # BaseConfiguration(name, **settings) with `settings` a display of the function
         except RecursionError:
@@ -1573,6 +1605,7 @@ def _r5(ctx, pkg):
     from ..consteval import fold, NotConstant, class_attr_resolver
     attr = class_attr_resolver(pkg, "InitCommand")
     cands = [n.value for n in ast.walk(ih) if isinstance(n, ast.Assign) and isinstance(n.targets[0], ast.Name)] + list(pkg.cls("InitCommand").attrs.values())
+    cands += [n for n in ast.walk(ih) if isinstance(n, ast.Dict) and not any(n is c for c in cands)]          # the table used where it stands, without a name
     for v in cands:
         if not isinstance(v, (ast.Dict, ast.DictComp, ast.Call)):
             continue
@@ -1621,12 +1654,12 @@ def _r5_example(ctx, pkg, table, allm):
     whatever the case list is spelled as (a literal list, a comprehension over a class-level table, ...) and however solver / device /
     method are derived from the chosen case, every case must end in a method of init.py's table and yield a combination the table allows."""
     from ..consteval import fold, run, NotConstant, class_attr_resolver
-    eh = _example_handle(pkg)
+    eh = _fold_cond_assigns(copy.deepcopy(_example_handle(pkg)))          # the interpreter below reads assignments: `if c: x = a else: x = b` as `x = a if c else b`
     attr = class_attr_resolver(pkg, "ExampleCommand")
     # by role: the list handed to self.choice(<question>, <list>, ..) -- the same local that `--select` indexes
     lst = next((c.args[1] for c in ast.walk(eh) if isinstance(c, ast.Call) and isinstance(c.func, ast.Attribute) and c.func.attr == "choice" and len(c.args) >= 2), None)
-    casevar = next((n.targets[0].id for n in ast.walk(eh) if isinstance(n, ast.Assign) and isinstance(n.targets[0], ast.Name) and isinstance(n.value, ast.Call)
-                    and isinstance(n.value.func, ast.Attribute) and n.value.func.attr == "choice"), None)
+    casevar = next((n.targets[0].id for n in ast.walk(eh) if isinstance(n, ast.Assign) and isinstance(n.targets[0], ast.Name)
+                    and any(isinstance(c, ast.Call) and isinstance(c.func, ast.Attribute) and c.func.attr == "choice" for c in ast.walk(n.value))), None)
     cases = None
     if lst is not None:
         try:
